@@ -88,7 +88,10 @@ def make_case(rng, i):
     two_spellings = (not upper) and rng.random() < 0.5
     if two_spellings:
         feats.add("two_spellings")
-    return {"names": names, "reactions": reacs, "required": required, "upper": upper, "features": sorted(feats), "two_spellings": two_spellings,
+    required_late = bool(required) and i % 3 == 1
+    if required_late:
+        feats.add("required_declared_late")
+    return {"names": names, "reactions": reacs, "required": required, "upper": upper, "features": sorted(feats), "two_spellings": two_spellings, "required_late": required_late,
             "cli": True, "enzo": i % 2 == 0}
 
 
@@ -130,7 +133,13 @@ def run_case(case, ctx):
         rl = []
         for r in case["reactions"]:
             rl.append(Reaction(list(r["reactants"]), list(r["products"]), alpha=r["alpha"], reaction_type=RT.GAS_TWOBODY, idxfromfile=r["idx"]))
-        net = Network(rl, required_species=case["required"] or None, **kw)
+        if case.get("required_late") and case["required"]:
+            # the species declared after the list has been read once (a report, a summary): they still get their slots
+            net = Network(rl, **kw)
+            _ = [s.alias for s in net.species]
+            net.required_species = list(case["required"])
+        else:
+            net = Network(rl, required_species=case["required"] or None, **kw)
         if case["two_spellings"]:
             # the same species under other spellings, merged from files of other conventions
             p = work / "extra.leeds"
@@ -165,6 +174,15 @@ def run_case(case, ctx):
     dup = [k for k, c in classes.items() if c > 1]
     if dup:
         viol.append(violation("two_slots_for_one_species", f"{dup} occupy more than one slot: {[n for n, _ in py_species]}"))
+    # every species named by a reaction or declared as required has a slot (and nothing else has): counted independently of the network object
+    want = {("<e>" if n.upper() in ("E", "E-") else n) for r in case["reactions"] for n in r["reactants"] + r["products"]} | \
+           {("<e>" if n.upper() in ("E", "E-") else n) for n in case["required"]}
+    obs["species_sets_checked"] += 1
+    if len(classes) != len(want):
+        got_names = sorted(classes)
+        viol.append(violation("species_without_slot" if len(classes) < len(want) else "slot_without_species",
+                              f"{len(want)} species are named by the reactions / required list ({sorted(want)[:12]}...), the network lists {len(classes)} "
+                              f"({got_names[:12]}...)", required_late=case.get("required_late")))
     legal_only = not bad
     # ---- render every back-end, compare artefacts
     for be in ("dense", "sparse", "odeint", "cusparse"):
